@@ -30,7 +30,7 @@ CHECKS = {
             "DESIGN.md 3 C08"),
     "C01": ("exploration",
             "runtime monitoring: observer program logs the argv/descriptors/parent it was started with; follower observer after | ; && ||; decoy files and sentinel HOME; failing lines are shrunk to one argument and a minimal text before classification",
-            "Every argument text of length <=2 (quick) / <=3 (thorough) over the 30-symbol alphabet in each of the three quoting styles and in only/first/middle/last/last-before-operator position is executed by the real binary; longer mixed lines sampled.",
+            "Every argument text of length <=2 (quick) / <=3 (thorough) over the 30-symbol alphabet in each of the three quoting styles and in only/first/middle/last/last-before-operator position is executed by the real binary; longer mixed lines sampled. An in-process explorer (exec interceptor hook: the command lines cicada is about to execute) covers every text of length <=3 (quick) / <=4 (thorough) over 27 symbols x 3 styles x followers; every text it flags is shrunk and then executed by the real binary, whose observation decides.",
             "trusts the helper's argv record; ESC style = backslash before every non-alphanumeric ASCII character",
             "DESIGN.md 3 C01"),
     "C10": ("exploration",
@@ -40,17 +40,17 @@ CHECKS = {
             "DESIGN.md 3 C10"),
     "C12": ("exploration",
             "runtime monitoring: observer argv in prepared directory populations compared with a reference expander (brace product, inclusive range, HOME, sorted non-hidden matches); failing lines reduced to the single failing word",
-            "Random brace terms from a grammar, ranges over boundary bounds (with escaped blanks around them), tilde forms (incl. a second ~ later in the word) and glob patterns against 5 directory populations, each next to quoted neighbours, as a command's arguments and as the word list of a script `for`, executed by the real binary.",
+            "Random brace terms from a grammar, ranges over boundary bounds (with escaped blanks around them), tilde forms (incl. a second ~ later in the word) and glob patterns against 6 directory populations (incl. matches two and more levels down, relative / absolute / under ~, hidden entries at every level, hidden directories written out), each next to quoted neighbours, as a command's arguments and as the word list of a script `for`, executed by the real binary.",
             "reference expander in lib/c12.py; one expansion kind per word; words expanding to an empty word not generated",
             "DESIGN.md 3 C12"),
     "C11": ("exploration",
             "runtime monitoring: inner observer vp_out logs one record per run (exactly-once) and emits prepared stdout/stderr/status; outer observer records the resulting word; shell snapshots before/after; step-budget hook for termination",
-            "Random words with 1..3 substitutions in 5 contexts, 10 inner-command kinds (incl. a substitution of the other spelling inside, and quoted arguments containing ) ( \\ and quotes) and 17 output classes are executed and compared with prefix+output-minus-trailing-newlines+suffix; stderr pass-through, exactly-once, the inner command's own argv and shell state are checked on every run.",
+            "Random words with 1..3 substitutions in 5 contexts, 10 inner-command kinds (incl. a substitution of the other spelling inside, and quoted arguments containing ) ( \\ and quotes) and 18 output classes (one of 90 KB, more than a pipe buffer; 6% of the inner commands also write 100 KB to stderr) are executed and compared with prefix+output-minus-trailing-newlines+suffix; stderr pass-through, exactly-once, the inner command's own argv and shell state are checked on every run.",
             "unquoted results compared modulo blank/newline runs",
             "DESIGN.md 3 C11"),
     "C13": ("exploration",
             "runtime monitoring: observer records argv, identity of its fds 0/1/2 and its parent; directory listing before/after; any further helper record is an extra command",
-            "The finite product value-class x delivery ($V, ${V}, assigned, $(), backquotes, * match) x quoting x position (first/middle/last argument, command word) x neighbouring-word tag, and again next to a genuine < f / <<< w / > f on the same command, is enumerated completely (10k executions); thorough adds 20k random operator mixes.",
+            "The finite product value-class (incl. multi-line values) x delivery ($V, ${V}, assigned, $(), backquotes, * match of a file, * in a directory position matching a directory with that name) x quoting x position (first/middle/last argument, command word, value of a leading assignment word, glued to name= as an argument) x neighbouring-word tag, and again next to a genuine < f / <<< w / > f on the same command, is enumerated completely (14.6k executions); thorough adds 20k random operator mixes.",
             "unquoted results compared modulo blank runs",
             "DESIGN.md 3 C13"),
     "C09": ("exploration",
@@ -70,7 +70,7 @@ CHECKS = {
             "DESIGN.md 3 C14"),
     "C15": ("exploration",
             "runtime monitoring: probe observers for \"$0\" \"$1\" \"${2}\" \"$@\" and $? placed in the script, in function bodies and in sourced files; marker observers; process exit status; oracle = reference model of the documented semantics run on the same structure",
-            "Generated scripts with arguments (incl. blanks and specials), functions in both header spellings, source chains to depth 3, exit / set -e / failing commands at random positions; the whole ordered event list and the exit status are compared.",
+            "Generated scripts with arguments (incl. blanks and specials), functions in both header spellings, source chains to depth 3, exit / set -e / failing commands at random positions, if / else-if / else chains, for loops (also over positional parameters) and while loops whose condition lines carry the positional parameters, in the script, in function bodies and in sourced files; the whole ordered event list and the exit status are compared.",
             "model in lib/c15.py; the state right after an if none of whose branches ran is not judged",
             "DESIGN.md 3 C15"),
     "C18": ("exploration",
@@ -80,12 +80,12 @@ CHECKS = {
             "DESIGN.md 3 C18"),
     "C17": ("exploration",
             "runtime monitoring: alias values start with observer programs (argv reached through an alias is recorded); listings captured through the builtin's redirection and fed to a fresh shell; oracle = alias-table model over a history of operations",
-            "Random histories of define/redefine/unalias/list/show/use with names over [A-Za-z0-9_.-]+ and values with options, quoted blanks, pipes, other alias names and self reference; uses at line start, after | ; &&, in every stage of a pipeline, and as non-first word.",
+            "Random histories of define/redefine/unalias/list/show/use with names over [A-Za-z0-9_.-]+ (incl. pairs differing only in letter case or in the separator character) and values with options, quoted blanks, pipes, other alias names and self reference; uses at line start, after | ; &&, in every stage of a pipeline, and as non-first word.",
             "expected argv = shell-split alias value + remaining words",
             "DESIGN.md 3 C17"),
     "C16": ("exploration",
             "runtime monitoring, differential: the same helper-based line is run through -c, a script, a function body, a sourced file and a pty prompt in identically prepared directories; the observation tuples (helper records incl. stdin bytes, files, status) must equal the -c tuple",
-            "Lines from the generators of C01 C03 C04 C10 C11 C12 (no positional parameters) are replayed through the entry points; one third also through a live pty session.",
+            "Lines from the generators of C01 C03 C04 C10 C11 C12 (no positional parameters) are replayed through the entry points; one third also through a live pty session; every metacharacter as the last word of a line (escaped and quoted) goes through all five.",
             "oracle is equality with -c, no model; records compared as sorted multisets",
             "DESIGN.md 3 C16"),
     "C06": ("exploration",
